@@ -78,7 +78,12 @@ def run(res, tier, seed):
         res.sample({'query': qgen.render_query(c['q'], 'py'), 'A': c['A'], 'B': c['B']})
     engine_corr.run_cases(res, 'C04', cases, 'py', rnd=random.Random(seed + 8))
     engine_corr.js_leg(res, 'C04', cases, rnd=random.Random(seed + 108))
+    # from the ON clause text to the key lists (Model/JoinResolve.lean vs the real resolve_join_variables / translate_except_expression)
+    import translate_corr
+    translate_corr.run_leg(res, tier, seed, {'joins'})
 
 
 def replay(res, path):
-    return engine_corr.replay(res, path)
+    import translate_corr
+    r = translate_corr.replay(res, path)
+    return engine_corr.replay(res, path) if r is None else r
